@@ -132,7 +132,7 @@ func init() {
 	}
 
 	monitors["C09"] = func(r *rng, n int, res *MonitorResult) {
-		res.Rule = "a live swap in every rest state of every role (plus a finished one and one stored but not yet recovered after a restart) receives: every message type from a third party, every message type with an unknown id, every message type from the counterparty (acceptable or not in that state), and requests reusing its id on the same and on another channel; judged on the real service: unless the message is from the counterparty AND accepted by the state, the stored record bytes, the active entry and the sent messages are unchanged; id reuse is refused; the handler never panics; distinct = distinct (role, state, stimulus)"
+		res.Rule = "a swap in every rest state of every role, terminal states included, in three modes (live; stored but not yet recovered after a restart; after a full restart with RecoverSwaps) receives: every message type from a third party, every message type with an unknown id, every message type from the counterparty (acceptable or not in that state), and requests reusing its id on the same and on another channel; judged on the real service: unless the message is from the counterparty AND accepted by the state, the stored record bytes, the active entry and the sent messages are unchanged; id reuse is refused; the handler never panics; distinct = distinct (role, state, stimulus)"
 		type probe struct{ name, step string }
 		probes := []probe{
 			{"third cancel", "cancel from=third"}, {"third coop", "coop from=third"}, {"third txmsg", "txmsg from=third"}, {"third agree", "agree from=third"},
@@ -146,11 +146,14 @@ func init() {
 				}
 				sortStrings(names)
 				for _, stName := range names {
-					for mode := 0; mode < 2; mode++ { // 0: live, 1: stored but not recovered (fresh service object on the same db)
+					for mode := 0; mode < 3; mode++ { // 0: live, 1: stored but not recovered (fresh service object on the same db), 2: after a full restart with RecoverSwaps
 						w, c, _ := runScenario(defaultCfg(), pre[stName])
 						if mode == 1 {
 							w.mgr.stopAll()
 							w.boot(true, true) // Start() without RecoverSwaps()
+						}
+						if mode == 2 {
+							w.restart()
 						}
 						before := w.swapRecordJSON(c.id)
 						if before == "" {
